@@ -37,11 +37,12 @@ def re_match_with_span(attr, value):
     if attr.pattern is None:
         return True
 
+    fullmatch = getattr(attr._pattern_re, 'fullmatch', None)
+    if fullmatch is not None:
+        return fullmatch(value) is not None
+
+    # python 2: no fullmatch()
     m = attr._pattern_re.match(value)
-    # if m:
-    #     print(m, m.span(), len(value))
-    # else:
-    #     print(m)
     return (m is not None) and (m.span() == (0, len(value)))
 
 
